@@ -78,6 +78,9 @@ def parse_kani_output(out):
 def harness_verdict(text):
     ok = "VERIFICATION:- SUCCESSFUL" in text
     failed = "VERIFICATION:- FAILED" in text
+    if "CBMC failed" in text or "out of memory" in text or "CBMC timed out" in text or "Killed" in text:
+        # resource exhaustion is never a verdict
+        ok = failed = False
     m = re.search(r"\*\* (\d+) of (\d+) failed", text)
     nfail, ntotal = (int(m.group(1)), int(m.group(2))) if m else (0, 0)
     fails = []
@@ -115,7 +118,7 @@ def run_kani_units(mods, repo_root, tier, work, verbose=False):
     extra = []
     for m in mods:
         extra += list(getattr(m, "KANI_ARGS", []))
-    jobs = min(12, max(1, len(harnesses)))
+    jobs = min(int(os.environ.get("VERIF_KANI_JOBS", "6")), max(1, len(harnesses)))
     cmd = ["cargo", "kani", "-Z", "function-contracts", "-Z", "stubbing", "--output-format", "terse", "-j", str(jobs)]
     for a in extra:
         if a not in cmd:
@@ -123,8 +126,12 @@ def run_kani_units(mods, repo_root, tier, work, verbose=False):
     for m, h in harnesses:
         cmd += ["--harness", h["name"]]
     timeout = 3000 if tier == "thorough" else 1500
+    def limit():
+        import resource
+        gb = int(os.environ.get("VERIF_KANI_MEM_GB", "10"))
+        resource.setrlimit(resource.RLIMIT_AS, (gb << 30, gb << 30))
     try:
-        p = subprocess.run(cmd, cwd=dest, env=ENV, capture_output=True, text=True, timeout=timeout)
+        p = subprocess.run(cmd, cwd=dest, env=ENV, capture_output=True, text=True, timeout=timeout, preexec_fn=limit)
         out = p.stdout + "\n" + p.stderr
     except subprocess.TimeoutExpired as e:
         out = (e.stdout or b"").decode("utf8", "replace") + "\n" + (e.stderr or b"").decode("utf8", "replace") if isinstance(e.stdout, bytes) else (e.stdout or "") + (e.stderr or "")
